@@ -2,6 +2,7 @@
 
 SPEC = {
     "props": ["Props.C09"],
+    "oracle_props": ["C09", "C02"],
     "tie": ["Tie.C09"],
     "engines": [{"engine": "submit", "timeout": 900, "thorough": {"cases": 400}}],
     "required_theorems": [
